@@ -58,7 +58,8 @@ class ShaclSerializer(object):
                  instantiation_property_str=RDF_TYPE_STR, wikidata_annotation=False,
                  detect_minimal_iri=False, shape_example_features=None):
         self._target_file = target_file
-        self._namespaces_dict = namespaces_dict if namespaces_dict is not None else {}
+        # private copy: _add_shacl_namespace writes the SHACL prefix into it, the caller's dict must not change
+        self._namespaces_dict = dict(namespaces_dict) if namespaces_dict is not None else {}
         self._shapes_list = shapes_list
         self._string_return = string_return
         self._instantiation_property_str = instantiation_property_str
